@@ -49,6 +49,10 @@ fn is_subset(a: &BTreeMap<Canon, usize>, b: &BTreeMap<Canon, usize>) -> bool {
     a.iter().all(|(k, n)| b.get(k).map_or(false, |m| n <= m))
 }
 
+fn t_add_of(d: &MessageDecode) -> Vec<&RrDecode> {
+    plain_additional(d)
+}
+
 pub fn oracle(case: &Case, st: &mut Stats) -> Verdict {
     let (cat, model) = build(&case.catalog);
     let server = make_server(&cat, &ServerCfg { payload: case.payload, keys: vec![], rrl: None });
@@ -113,6 +117,40 @@ pub fn oracle(case: &Case, st: &mut Stats) -> Verdict {
                 du.authority.len(),
                 plain_additional(&du).len()
             );
+        }
+        // (2b) over TCP an OPT record in the request must not shrink the response: apart from the
+        // OPT record itself it is the response to the same request without OPT (unless the extra
+        // 11 octets push it over 65535)
+        if q.edns.is_some() {
+            let mut b0 = Builder::new(qi as u16, 0x0100);
+            b0.question(&qname, q.qtype, *class);
+            let req0 = b0.buf;
+            let t0 = match server.handle(&req0, true, localhost(), &mut tbuf) {
+                Ok(Some(n)) => tbuf[..n].to_vec(),
+                Ok(None) => fail!("no-response", "{what}: no response over TCP without OPT"),
+                Err(p) => fail!(panic_signature(&p), "{what}: handle_message panicked: {p}"),
+            };
+            if let Ok(d0) = decode_message(&t0) {
+                if t0.len() + 11 <= 65535 {
+                    let sec = |v: &Vec<RrDecode>| multiset(&v.iter().collect::<Vec<_>>());
+                    ensure!(
+                        d0.header.rcode as u16 == dt.extended_rcode()
+                            && d0.header.aa == dt.header.aa
+                            && sec(&d0.answers) == sec(&dt.answers)
+                            && sec(&d0.authority) == sec(&dt.authority)
+                            && multiset(&plain_additional(&d0)) == multiset(&t_add_of(&dt)),
+                        "tcp-response-changed-by-edns",
+                        "{what}: over TCP the response to the request with OPT ({} octets, RCODE {}, {} answer records) differs from the response to the same request without OPT ({} octets, RCODE {}, {} answer records)",
+                        t.len(),
+                        dt.extended_rcode(),
+                        dt.answers.len(),
+                        t0.len(),
+                        d0.header.rcode,
+                        d0.answers.len()
+                    );
+                    st.class("tcp-with-and-without-opt-compared");
+                }
+            }
         }
         // the complete response could not be built even over TCP (> 65535 octets): nothing to compare with
         if dt.extended_rcode() == 2 && dt.answers.is_empty() && dt.authority.is_empty() {
